@@ -1186,15 +1186,172 @@ fn case(case: u64, rng: &mut Rng, rep: &mut Report, thorough: bool) {
     }
 }
 
+/// Validation is repeatable: one live `Index` handle validates the intact index, a file of a
+/// committed segment is damaged afterwards (bit flip in the body, truncation, or replacement by
+/// another valid file), and the SAME handle - and a freshly opened one - validate again. Every
+/// validation has to read the files as they are now.
+fn revalidate_case(case: u64, rng: &mut Rng, rep: &mut Report) {
+    use tantivy::directory::RamDirectory;
+    let ram = RamDirectory::create();
+    let cfg = ExecCfg { threads: 1, merge_policy: false, sort: None, budget_per_thread: 15_000_000 };
+    let mut ex = match Exec::create(Box::new(ram.clone()), cfg, None) {
+        Ok(e) => e,
+        Err(e) => {
+            rep.violation("api-error:create", json!(e));
+            return;
+        }
+    };
+    rep.eval();
+    let mut g = HistGen::new();
+    for _ in 0..rng.urange(1, 3) {
+        for _ in 0..rng.urange(2, 30) {
+            ex.step(&Op::Add(g.doc(rng, 3)));
+        }
+        ex.step(&Op::Commit);
+    }
+    if rng.bool() {
+        ex.step(&Op::DeleteTerm(Pred::Grp(rng.below(3))));
+        ex.step(&Op::Commit);
+    }
+    if let Some(w) = ex.writer.take() {
+        let _ = w.wait_merging_threads();
+    }
+    let index = ex.index.clone();
+    let meta = match ram.atomic_read(Path::new("meta.json")) {
+        Ok(m) => m,
+        Err(e) => {
+            rep.violation("revalidate:meta.json-unreadable", json!(e.to_string()));
+            return;
+        }
+    };
+    let files: Vec<String> = match meta_referenced_files(&meta) {
+        Ok(f) => f.into_iter().map(|(f, _)| f).filter(|f| ram.exists(Path::new(f)).unwrap_or(false)).collect(),
+        Err(e) => {
+            rep.harness_error(format!("revalidate: {e}"));
+            return;
+        }
+    };
+    if files.is_empty() {
+        return;
+    }
+    let rounds = rng.urange(1, 3);
+    for round in 0..rounds {
+        // (1) intact: nothing reported (also primes whatever the implementation may remember)
+        for _ in 0..rng.urange(1, 2) {
+            match guarded(|| index.validate_checksum()) {
+                Ok(Ok(bad)) if bad.is_empty() => {}
+                Ok(Ok(bad)) => {
+                    rep.violation("revalidate:intact-index-reported-damaged", json!({"case": case, "round": round, "bad": format!("{bad:?}")}));
+                    return;
+                }
+                Ok(Err(e)) => {
+                    rep.violation("revalidate:intact-index-validation-error", json!({"case": case, "err": e.to_string()}));
+                    return;
+                }
+                Err(p) => {
+                    rep.violation(format!("revalidate:panic:{}", p.sig()), json!({"case": case, "msg": p.message}));
+                    return;
+                }
+            }
+        }
+        // (2) damage one file in place
+        let victim = rng.pick(&files).clone();
+        let vp = PathBuf::from(&victim);
+        let orig = match ram.open_read(&vp).and_then(|f| f.read_bytes().map_err(|e| OpenReadError::wrap_io_error(e, vp.clone()))) {
+            Ok(b) => b.as_slice().to_vec(),
+            Err(e) => {
+                rep.harness_error(format!("revalidate: cannot read {victim}: {e}"));
+                return;
+            }
+        };
+        let foot = match parse_footer(&orig) {
+            Ok(f) => f,
+            Err(e) => {
+                rep.harness_error(format!("revalidate: footer of {victim}: {e}"));
+                return;
+            }
+        };
+        let body_len = foot.body_len;
+        let (dmg, damaged): (&str, Vec<u8>) = match rng.below(3) {
+            0 if body_len > 0 => {
+                let mut d = orig.clone();
+                let pos = rng.below(body_len as u64) as usize;
+                d[pos] ^= 1 << rng.below(8);
+                ("bit-flip-in-body", d)
+            }
+            1 if orig.len() > 1 => ("truncated", orig[..rng.below(orig.len() as u64 - 1) as usize + 1].to_vec()),
+            _ => {
+                // another valid file (own footer, own checksum) under this name is not damage
+                // the checksum can see: only used when the body is empty
+                if body_len == 0 {
+                    continue;
+                }
+                let mut d = orig.clone();
+                d[0] = d[0].wrapping_add(1);
+                ("first-byte-changed", d)
+            }
+        };
+        if ram.atomic_write(&vp, &damaged).is_err() {
+            rep.harness_error(format!("revalidate: cannot overwrite {victim}"));
+            return;
+        }
+        // (3) the same handle and a fresh one must both report exactly this file
+        for (who, idx) in [("same-handle", Some(index.clone())), ("fresh-handle", Index::open(ram.clone()).ok())] {
+            let Some(idx) = idx else {
+                // a damaged file may legitimately prevent opening... not for segment files: meta.json is intact
+                rep.violation(format!("revalidate:{who}:open-failed-after-damage"), json!({"case": case, "file": victim}));
+                continue;
+            };
+            match guarded(|| idx.validate_checksum()) {
+                Ok(Ok(bad)) => {
+                    let got: BTreeSet<String> = bad.iter().map(|p| p.to_string_lossy().to_string()).collect();
+                    let want: BTreeSet<String> = [victim.clone()].into_iter().collect();
+                    if got != want {
+                        let sig = if got.is_empty() {
+                            format!("revalidate:{who}:damage-after-an-earlier-validation-not-reported:{dmg}:{}", file_kind(&victim))
+                        } else {
+                            format!("revalidate:{who}:wrong-set-of-files-reported:{dmg}")
+                        };
+                        rep.violation(sig, json!({"case": case, "round": round, "file": victim, "reported": got, "file_len": orig.len(), "body_len": body_len}));
+                    } else {
+                        rep.count("revalidate:damage_reported", 1);
+                    }
+                }
+                // an error naming the problem is acceptable for a truncated file (not clean either way)
+                Ok(Err(e)) => {
+                    if dmg == "truncated" {
+                        rep.count("revalidate:truncation_reported_as_error", 1);
+                    } else {
+                        rep.violation(format!("revalidate:{who}:validation-error-instead-of-report:{dmg}"), json!({"case": case, "file": victim, "err": e.to_string()}));
+                    }
+                }
+                Err(p) => rep.violation(format!("revalidate:{who}:panic:{}", p.sig()), json!({"case": case, "file": victim, "msg": p.message, "damage": dmg})),
+            }
+        }
+        rep.nontrivial(format!("revalidate:{dmg}:{}:{}", file_kind(&victim), size_class(body_len)));
+        // (4) repair in place: clean again (nothing sticks the other way either)
+        if ram.atomic_write(&vp, &orig).is_err() {
+            return;
+        }
+        match guarded(|| index.validate_checksum()) {
+            Ok(Ok(bad)) if bad.is_empty() => {}
+            Ok(Ok(bad)) => rep.violation("revalidate:repaired-file-still-reported", json!({"case": case, "file": victim, "bad": format!("{bad:?}")})),
+            Ok(Err(e)) => rep.violation("revalidate:repaired-index-validation-error", json!({"case": case, "err": e.to_string()})),
+            Err(p) => rep.violation(format!("revalidate:panic:{}", p.sig()), json!({"case": case, "msg": p.message})),
+        }
+    }
+}
+
 fn main() {
     let ctx = Ctx::from_env("C20", "exploration");
     let thorough = !ctx.quick();
     let n = ctx.scale(24, 1000) as u64;
-    let rep = run_cases(&ctx, "damage", n, |c, rng, rep| case(c, rng, rep, thorough));
+    let mut rep = run_cases(&ctx, "damage", n, |c, rng, rep| case(c, rng, rep, thorough));
+    rep.merge(run_cases(&ctx, "revalidate", ctx.scale(120, 4000) as u64, revalidate_case));
     simple_finish(
         &ctx,
         rep,
-        "case = one generated multi-segment index (history workload with deletes and merges on MonDir; storage accepts short writes in every second index); evaluations = indexes + damaged copies validated (ManagedDirectory::validate_checksum / open_read on every copy, Index::open + Index::validate_checksum on a sampled subset incl. the first copy of every (file kind, damage kind)). Files with a body <= 4096 bytes are enumerated completely (every bit, every body/file truncation length, every insert position); larger ones get every byte x one random bit up to 32 KB, beyond that sampled positions plus buffer/block boundaries. Non-trivial = a damaged copy of a file of a committed segment; distinct = (file kind, body size class, damage kind, short_writes).",
+        "case = one generated multi-segment index (history workload with deletes and merges on MonDir; storage accepts short writes in every second index); evaluations = indexes + damaged copies validated (ManagedDirectory::validate_checksum / open_read on every copy, Index::open + Index::validate_checksum on a sampled subset incl. the first copy of every (file kind, damage kind)). Files with a body <= 4096 bytes are enumerated completely (every bit, every body/file truncation length, every insert position); larger ones get every byte x one random bit up to 32 KB, beyond that sampled positions plus buffer/block boundaries. Stream `revalidate`: one live Index handle validates the intact index, a file is damaged in place afterwards, the same handle and a fresh one must report exactly that file, and nothing once repaired. Non-trivial = a damaged copy of a file of a committed segment; distinct = (file kind, body size class, damage kind, short_writes).",
         ctx.scale(60, 120),
         &[
             "detection is demanded for every damage of the body and every truncation of the file; for damage confined to the footer bytes only 'no panic and never clean with a different body' is demanded",
